@@ -25,7 +25,7 @@ func indexType(rt reflect.Type) (im map[string]reflect.StructField) {
 			if 0 < len(f.PkgPath) {
 				continue
 			}
-			if f.Anonymous {
+			if f.Anonymous && embedsStruct(f.Type) {
 				fim := indexType(f.Type)
 				// prepend index and add to im
 				for k := range fim {
